@@ -421,6 +421,26 @@ def execute(case, ctx):
             sig = "outcome-differs-from-exactly-approved:" + ("storage" if only_storage else "test-file") + (":review-mode" if review and only_storage else "")
             clause = "exactly-approved"
         viol(clause, sig, f"config {cfg}\n  effective approved set (spec) = {sorted(approved)}; files differing from the reference outcome: {ks}\n{d}\n--- session output\n{res.get('out', '')[-1200:]}")
+    # ---- the same session through the real prompt (rich.prompt.Confirm reading stdin): same outcome as through the scripted answers
+    if "review" in (cfg.get("_flags") or []) and res.get("asked") and case.get("real_stdin", True) and not cfg.get("xdist"):
+        import random
+
+        rr = random.Random(len(res["asked"]) * 7 + len(str(cfg)))
+        lines = []
+        for cat, ans in res["asked"]:
+            lines.append(rr.choice(["y", "Y", " y "]) if ans else rr.choice(["n", "", "N"]))  # Enter = default = no
+        spec2 = dict(spec, real_stdin="\n".join(lines) + "\n" + "n\n" * 6)
+        new2, res2 = sim.run_session(ctx, "plugin", files, spec2, timeout=90)
+        if res2.get("status") == "ok" and sim.session_completed("plugin", res2):
+            ctx.count("probe_real_prompt_session")
+            got2 = judged_tree(new2)
+            ref2 = judged_tree(new)
+            if cfg.get("xfail_all"):
+                got2 = {k: v for k, v in got2.items() if not k.startswith(".inline-snapshot/")}
+                ref2 = {k: v for k, v in ref2.items() if not k.startswith(".inline-snapshot/")}
+            if got2 != ref2:
+                ks, d = diff_desc(ref2, got2)
+                viol("review-answers", "typed-answers-differ-from-scripted-answers", f"config {cfg}: typed answers {lines} for prompts {res['asked']}: files {ks} differ from the outcome of the same answers given through the scripted prompt\n{d}\n{res2.get('out', '')[-800:]}")
     out["sample"] = {"config": cfg, "eff": sorted(approved), "outcome": changed_cls}
     return out
 
